@@ -58,6 +58,17 @@ Theorem request_scripts_are_well_suppressed : forall first resends c,
 Proof. intros first resends c. apply body_life_ok. Qed.
 Print Assumptions request_scripts_are_well_suppressed.
 
+(** The hypotheses as a decision procedure: whenever [hyp_ok] answers true for a
+    chunk and a script (the harness runs it, extracted, on every script it
+    records from the real request life cycle) the conclusion holds. *)
+Theorem chunk_reported_checked : forall c ops n,
+  hyp_ok c ops = true ->
+  let c' := run_state c (firstn n ops) in
+  let sum := raw_sum (run_events c (firstn n ops)) in
+  (enabled c' = true -> sum = bounded_pos c') /\ 0 <= sum <= size c.
+Proof. exact checked_script_reports_bounded_pos. Qed.
+Print Assumptions chunk_reported_checked.
+
 (** The hypothesis is necessary: switching reporting off at position 4 and on
     again at position 0 makes a 4-byte chunk report 8. *)
 Theorem suppressed_rewind_overreports :
@@ -268,13 +279,14 @@ Print Assumptions C09_copy_single.
     relative to the position and to the end, reads again; the first send is cut
     after 3 bytes, the second after 2, the third completes.  Threshold 2. *)
 Example C09_upload_nonvacuous :
-  up_ok ex_part /\
+  up_ok ex_part /\ hyp_ok ex_chunk (body_life ex_first ex_resends) = true /\
   map ev_value (run_events ex_chunk (body_life ex_first ex_resends)) =
     [3; -3; 1; 1; -2; 2; 2; 0] /\
   up_values 2 ex_part = [3; 1] /\
   exact_for 4 (up_values 2 ex_part).
 Proof.
-  split; [exact ex_part_ok|]. split; [vm_compute; reflexivity|]. split; [vm_compute; reflexivity|].
+  split; [exact ex_part_ok|]. split; [vm_compute; reflexivity|].
+  split; [vm_compute; reflexivity|]. split; [vm_compute; reflexivity|].
   apply (upload_body_progress_exact 2 ex_first ex_resends ex_chunk); apply ex_part_ok.
 Qed.
 
